@@ -35,7 +35,7 @@ CHECKS = {
     'C05': dict(cat='translation_validation', ref='5 C05', engine='SVM+RI',
                 technique='symbolic execution of emitted assembly (z3) vs reference-interpreter faults, plus explicit fault biconditionals decided by z3',
                 text='Fault matrix (division/modulo, index read/write/compound for int/byte/bool arrays in stack/global/const/parameter/argument storage and strings, dynamic lengths per element type, '
-                     'return from preemptive defeat functions): faults are raised exactly when the source-level predicate holds, before the faulting operation\'s effects (markers), and terminally.',
+                     'return from preemptive defeat functions, faulting operands beside constant logical operands, every kind of index / divisor expression of the use-site matrix): faults are raised exactly when the source-level predicate holds, before the faulting operation\'s effects (markers), and terminally.',
                 note=TB),
     'C08': dict(cat='model_checking', ref='5 C08', engine='SVM',
                 technique='symbolic execution of the emitted assembly (z3) with (fp, ap) equality monitors at loop heads/exits, call returns, stop-handler entry and function return; VM vs reference-interpreter equivalence (z3) on the scope family for early release',
@@ -53,7 +53,7 @@ CHECKS = {
                 note=TB),
     'C16': dict(cat='model_checking', ref='5 C16', engine='SVM+RI',
                 technique='symbolic execution (z3) with a function-extent fall-through monitor and a return-to-caller monitor; VM vs reference interpreter for returned values; dropped-code reachability in the reference interpreter',
-                text='Control-flow skeleton family: on no path (committed or speculative) does the pc move from one function\'s extent into the next without a taken jump, and every jump through a register goes to the instruction after the call that created the activation (keyed by the callee frame pointer); non-empty functions return the value the '
+                text='Control-flow skeleton family (incl. nested loops, constant-false loops, library routines with boundary arguments): on no path (committed or speculative) does the pc move from one function\'s extent into the next without a taken jump, and every jump through a register goes to the instruction after the call that created the activation (keyed by the callee frame pointer); non-empty functions return the value the '
                      'reference interpreter computes; a block the compiler truncated never completes its last kept statement normally.',
                 note=TB + ' Over-rejection ("Missing return statement") is allowed by the property and counted separately.'),
 
@@ -72,7 +72,7 @@ CHECKS = {
     'C10': dict(cat='other', ref='5 C10', engine='CH',
                 technique='CrossHair (z3) on compiler options and on the parser over short token lists; complete enumeration of the typechecker-to-generator interface tables with the strict assembler as acceptance oracle',
                 text='PARTIAL: the quantifier "all source strings" is not reachable (the regex lexer cannot be executed symbolically) and is not claimed. Claimed: option handling and parser totality on token lists are confirmed over all paths; '
-                     'every program of the C07 rule tables and a set of generator-assertion probes either fails with a located, renderable CompilerError or compiles to text the strict assembler accepts; random text / mutated programs and '
+                     'every program of the C07 rule tables, every operator over operands of every type (incl. calls of empty functions), 31 statement forms x 22 operand kinds (one probe per program) and a set of generator-assertion probes either fails with a located, renderable CompilerError or compiles to text the strict assembler accepts; random text / mutated programs and '
                      'the command-line tool (exit status, stderr, output file) are exercised as auxiliary concrete runs.',
                 note='Auxiliary concrete parts are reported separately in the evidence. Trusted: CrossHair/z3, hv/asm.py as the assembler.'),
     'C11': dict(cat='proof', ref='5 C11', engine='CH',
